@@ -2,6 +2,7 @@ package main
 
 import (
 	"fmt"
+	"go/constant"
 	"go/token"
 	"go/types"
 	"strings"
@@ -190,6 +191,35 @@ func ruleFwdCloseSend(r *Run) {
 			} else {
 				r.ok(key, in.Pos(), "every path from an inbound io.EOF to the end of the pump passes clientStream.CloseSend()")
 			}
+			// … and only then: a half-close after a failed inbound stream (truncated body, over-limit or malformed
+			// message) tells the backend "complete" where the client's stream was cut
+			key2 := shortFunc(g) + "/half-close-only-on-clean-end"
+			onlyEOF := true
+			var badPos token.Pos
+			nClose := 0
+			eachInstr(g, func(x ssa.Instruction) {
+				if !isClose(x) {
+					return
+				}
+				nClose++
+				if _, deferred := x.(*ssa.Defer); deferred {
+					onlyEOF, badPos = false, x.Pos()
+					return
+				}
+				if !p.guardedInEveryContext(x.Block(), func(gf guardFact) bool {
+					a, b, op, ok := gf.cmp()
+					return ok && op == token.EQL && ((isIOEOF(b) && derivesFromRecv(a)) || (isIOEOF(a) && derivesFromRecv(b)))
+				}) {
+					onlyEOF, badPos = false, x.Pos()
+				}
+			})
+			if nClose > 0 {
+				if onlyEOF {
+					r.ok(key2, in.Pos(), "CloseSend runs only where the inbound RecvMsg error is io.EOF")
+				} else {
+					r.bad(key2, badPos, "clientStream.CloseSend() also runs when the inbound stream did not end with io.EOF (deferred, or not under `err == io.EOF`): after a truncated or failed client stream the backend receives the complete messages followed by a clean end-of-stream instead of an error")
+				}
+			}
 		})
 	}
 	if n == 0 {
@@ -333,6 +363,112 @@ func ruleFwdErrIdentity(r *Run) {
 	if n == 0 {
 		r.undecided("createConnHandler/errors", token.NoPos, "no forwarder closure with an error result found")
 	}
+	// the filter that decides which stream errors end the forwarder with an error: it may set aside only the
+	// end-of-stream sentinels (nil, io.EOF, context.Canceled by identity); anything else it lets through as "no
+	// error" is a backend status the client never sees
+	seenPred := map[*ssa.Function]bool{}
+	for _, g := range p.proxyClosures() {
+		eachInstr(g, func(in ssa.Instruction) {
+			ifi, ok := in.(*ssa.If)
+			if !ok {
+				return
+			}
+			fs, _ := p.factsWhen(ifi.Cond, true)
+			for _, f := range fs {
+				c, ok := f.Cond.(*ssa.Call)
+				if !ok {
+					continue
+				}
+				callee := c.Call.StaticCallee()
+				if callee == nil || c.Call.IsInvoke() || !p.InModule(callee) || len(callee.Params) != 1 || !isErrorType(callee.Params[0].Type()) || seenPred[callee] {
+					continue
+				}
+				res := callee.Signature.Results()
+				if res.Len() != 1 {
+					continue
+				}
+				if b, ok := res.At(0).Type().Underlying().(*types.Basic); !ok || b.Kind() != types.Bool {
+					continue
+				}
+				seenPred[callee] = true
+				key := shortFunc(callee) + "/filters-only-end-of-stream"
+				bad := p.errFilterLeak(callee)
+				if bad != "" {
+					r.bad(key, callee.Pos(), "the error filter of the forwarder treats more than nil / io.EOF / context.Canceled (by identity) as \"no error\": %s — a backend that ends the stream with such a status is reported as OK to the client", bad)
+				} else {
+					r.ok(key, callee.Pos(), "only nil, io.EOF and context.Canceled (by identity) are set aside; every other error ends the forwarder with that error")
+				}
+			}
+		})
+	}
+}
+
+// errFilterLeak: for a predicate f(err) bool used as "is this a real error", describe a way it can answer false for
+// an error other than the end-of-stream sentinels; "" if there is none.
+func (p *Program) errFilterLeak(fn *ssa.Function) string {
+	par := fn.Params[0]
+	sentinel := func(g guardFact) bool {
+		x, y, op, ok := g.cmp()
+		if !ok || op != token.EQL {
+			return false
+		}
+		if y == ssa.Value(par) {
+			x, y = y, x
+		}
+		if x != ssa.Value(par) {
+			return false
+		}
+		if isNilConst(y) {
+			return true
+		}
+		if u, ok := y.(*ssa.UnOp); ok && u.Op == token.MUL {
+			if gl, ok := u.X.(*ssa.Global); ok && gl.Pkg != nil {
+				switch gl.Pkg.Pkg.Path() + "." + gl.Name() {
+				case "io.EOF", "context.Canceled":
+					return true
+				}
+			}
+		}
+		return false
+	}
+	leak := ""
+	eachInstr(fn, func(in ssa.Instruction) {
+		rt, ok := in.(*ssa.Return)
+		if !ok || len(rt.Results) != 1 {
+			return
+		}
+		for _, l := range p.guardedLeaves(rt.Results[0]) {
+			c, isC := l.v.(*ssa.Const)
+			if !isC || c.Value == nil || c.Value.Kind() != constant.Bool {
+				// a computed answer (`return err != nil && err != io.EOF && …`): whenever it is false a sentinel identity must hold
+				fs, never := p.factsWhen(l.v, false)
+				ok := never
+				for _, g := range append(fs, p.expandFacts(l.facts)...) {
+					if sentinel(g) {
+						ok = true
+					}
+				}
+				if !ok {
+					leak = "its answer depends on " + describeValue(l.v) + " (" + p.Pos(rt.Pos()) + ")"
+				}
+				continue
+			}
+			if constant.BoolVal(c.Value) {
+				continue
+			}
+			// answers false: only under a sentinel identity test (taken on the way to this return / this phi edge)
+			ok := false
+			for _, g := range p.expandFacts(l.facts) {
+				if sentinel(g) {
+					ok = true
+				}
+			}
+			if !ok && !p.guardedInEveryContext(rt.Block(), sentinel) {
+				leak = "it answers false at " + p.Pos(rt.Pos()) + " without an identity test against nil, io.EOF or context.Canceled"
+			}
+		}
+	})
+	return leak
 }
 
 // ---------------------------------------------------------------------------
